@@ -5,6 +5,7 @@
    connection transports' bookkeeping. *)
 From FMP Require Import Base.Bytes Base.Lts Model.Connection Model.ConnProps Model.ConnCfg Model.CTransport
      Proofs.ConnProofs Proofs.ConnCfgProofs Proofs.CTransportProofs.
+From FMP Require Import Model.Paths Proofs.PathProofs.
 Open Scope Z_scope.
 
 (* however commands, forced reconnects, disconnections and Shutdown race: at most one dial attempt is in progress *)
@@ -72,6 +73,10 @@ Proof. exact ct_dial_stages. Qed.
 Theorem C14_generated_ok : ccfg_now = expected_ccfg /\ cc_spawn_guarded expected_ccfg = true /\ cc_register_before_onconnect expected_ccfg = true.
 Proof. exact (conj ccfg_generated_ok (conj eq_refl eq_refl)). Qed.
 
+(* every path through Connection.connect as it is in the source now (Model/Paths.v): Finalize at most once, and only after
+   a Dial and an OnConnect on that same path *)
+Theorem C14_connect_paths : connect_paths_ordered = true. Proof. exact paths_connect_order. Qed.
+
 Print Assumptions C14_one_dial_in_progress.
 Print Assumptions C14_sequence_shape.
 Print Assumptions C14_outcome_functional.
@@ -83,3 +88,4 @@ Print Assumptions C14_earlier_transports_closed.
 Print Assumptions C14_close_closes_all.
 Print Assumptions C14_dial_stages.
 Print Assumptions C14_generated_ok.
+Print Assumptions C14_connect_paths.
